@@ -1,9 +1,75 @@
-import Model.Common
-/-! Oracle handlers for C02 (stub until the property's model exists). -/
-namespace OracleC02
-open Common
+import Model.C02
+import Oracle.C01
+/-!
+Oracle handler for C02.
 
-def handle (_cmd : String) (_f : List String) : String × String × String :=
-  ("unknown-cmd", "-", "-")
+`C02.rw  cfg now desc key | ringTokens  Wids WmaxErrors Werr  Rids RmaxErrors RmaxUnavailableZones Rzone Rerr`
+(`W` = `Ring.Get(key, Write)`, `R` = `Ring.GetReplicationSetForOperation(Read)` on the same ring).
+* diff : the model's two lookups on the realised token circle against the observation.
+* judge: the property statement evaluated on the implementation's own numbers — every minimal
+  acknowledging subset of `W` (size `len − MaxErrors`) against every minimal answering subset of `R`
+  (instances: size `len − MaxErrors`; zone-aware: every choice of `zones − MaxUnavailableZones` whole
+  zones) must share an instance. Plain enumeration, no arithmetic shortcut.
+-/
+namespace OracleC02
+open Common Ring C01 C02
+
+def subsetsOfSize : Nat → List α → List (List α)
+  | 0, _ => [[]]
+  | _ + 1, [] => []
+  | k + 1, x :: xs => (subsetsOfSize k xs).map (x :: ·) ++ subsetsOfSize (k + 1) xs
+
+def idsOf (s : String) : List String := if s == "-" then [] else s.splitOn ","
+
+def dedupS : List String → List String
+  | [] => []
+  | x :: xs => x :: (dedupS xs).filter (· != x)
+
+def judgeRW (d : Desc) (wIds : List String) (wMe : Nat) (rIds : List String) (rMe rMuz : Nat) (rZa : Bool) : List String :=
+  let a := wIds.length - wMe
+  let as := subsetsOfSize a wIds
+  let bs : List (List String) :=
+    if rZa then
+      let zoneOf (id : String) : String := match d.get? id with | some i => i.zone | none => "?"
+      let zs := dedupS (rIds.map zoneOf)
+      (subsetsOfSize (zs.length - rMuz) zs).map fun Zs => rIds.filter fun id => Zs.contains (zoneOf id)
+    else subsetsOfSize (rIds.length - rMe) rIds
+  if as.all fun A => bs.all fun B => A.any fun x => B.contains x then [] else ["write-and-read-quorums-disjoint"]
+
+def handleRW (f : List String) : String × String × String :=
+  match f with
+  | [cfgS, nowS, descS, keyS, toksS, wIdsS, wMeS, wErrS, rIdsS, rMeS, rMuzS, rZaS, rErrS] =>
+    match OracleC01.parseCfg cfgS, nowS.toInt?, parseDesc descS, keyS.toNat?, natList? toksS, wMeS.toNat?, rMeS.toNat?, rMuzS.toNat? with
+    | some cfg, some now, some d, some key, some toks, some wMe, some rMe, some rMuz =>
+      let tokOk := OracleC01.tokensAccepted d toks
+      let (mW, mWme, mWerr) := match get cfg d toks key opWrite now with
+        | .ok r => (OracleC01.showIds r.instances, r.maxErrors, "ok")
+        | .error e => ("-", 0, e.name)
+      let (mR, mRme, mRmuz, mRza, mRerr) := match getAll cfg d toks opRead now with
+        | .ok r => (let ids := OracleC01.sortS (r.instances.map (showStr ·.id)); (if ids.isEmpty then "-" else ",".intercalate ids),
+                    r.maxErrors, r.maxUnavailableZones, (if r.zoneAware then "1" else "0"), "ok")
+        | .error e => ("-", 0, 0, "0", e.name)
+      let diffs :=
+        (if tokOk then [] else ["ringTokens-not-a-GetTokens-result"]) ++
+        (if mW == wIdsS && mWme == wMe && mWerr == wErrS then [] else [s!"modelW={mW}|{mWme}|{mWerr}"]) ++
+        (if mR == rIdsS && mRme == rMe && mRmuz == rMuz && mRza == rZaS && mRerr == rErrS then []
+         else [s!"modelR={mR}|{mRme}|{mRmuz}|{mRza}|{mRerr}"])
+      let diff := if diffs.isEmpty then "-" else " ".intercalate diffs
+      let both := wErrS == "ok" && rErrS == "ok"
+      let wIds := idsOf wIdsS
+      let rIds := idsOf rIdsS
+      let j := if both then judgeRW d wIds wMe rIds rMe rMuz (rZaS == "1") else []
+      let judge := if j.isEmpty then "-" else ",".intercalate j
+      let nz := (ringZones d).length
+      let tags := s!"rw za={cfg.zoneAware} rf={cfg.rf} zones={nz} n={OracleC01.bucket d.length} both={both} " ++
+        s!"W={min wIds.length 6} slackW={min wMe 3} R={min rIds.length 6} slackR={min (if rZaS == "1" then rMuz else rMe) 3} " ++
+        s!"zcmp={if nz < cfg.rf then "lt" else if nz == cfg.rf then "eq" else "gt"}"
+      (diff, judge, tags)
+    | _, _, _, _, _, _, _, _ => ("bad-input", "-", "-")
+  | _ => ("bad-fields", "-", "-")
+
+def handle (cmd : String) (f : List String) : String × String × String :=
+  if cmd == "C02.rw" then handleRW f
+  else ("unknown-cmd", "-", "-")
 
 end OracleC02
